@@ -72,9 +72,15 @@ def canon(v):
     return "%s:%r" % (t, v)
 
 
+def vparams(sc, k):
+    """parameters of version k (factory / wraps pairs give each object its own defaults / signature)"""
+    return sc["versions"][str(k)].get("params", sc["params"])
+
+
 def source_for(sc, k):
     ver = sc["versions"][str(k)]
-    params = sc["params"]
+    params = vparams(sc, k)
+    factory = ver.get("kind") == "factory"
     ignore = set(sc["ignore"])
     parts = []
     seen_po = False
@@ -88,7 +94,8 @@ def source_for(sc, k):
             if kind == "ko" and not any(p[1] == "va" for p in params) and \
                     not any(q[1] == "ko" for q in params[:i]):
                 parts.append("*")
-            parts.append(name if default is None else "%s=%r" % (name, dec(default)))
+            parts.append(name if default is None else
+                         ("%s=D[%r]" % (name, name) if factory else "%s=%r" % (name, dec(default))))
         if kind == "po":
             seen_po = True
             if sum(1 for p in params[:i + 1] if p[1] == "po") == n_po:
@@ -108,7 +115,17 @@ def source_for(sc, k):
     sig = ", ".join(parts)
     pad = "".join("# pad %d\n" % j for j in range(ver.get("pad", 0)))
     kind = ver.get("kind", "def")
-    if kind == "method":
+    if kind == "factory":
+        # two objects made by ONE factory share their code object and differ in __defaults__/__kwdefaults__
+        dflt = "{%s}" % ", ".join("%r: %r" % (n, dec(d)) for n, _, d in params if d is not None)
+        body = ("def make(D):\n    def g(%s):\n        _COUNT[0] += 1\n        return %s\n    return g\n"
+                "g = make(%s)\n" % (sig, ret, dflt))
+    elif kind == "wraps":
+        # functions behind one functools.wraps decorator share the wrapper's code object
+        body = ("import functools\n\n\ndef deco(fn):\n    @functools.wraps(fn)\n"
+                "    def wrapper(*args, **kwargs):\n        return fn(*args, **kwargs)\n    return wrapper\n\n\n"
+                "def g(%s):\n    _COUNT[0] += 1\n    return %s\n\n\ng = deco(g)\n" % (sig, ret))
+    elif kind == "method":
         body = ("class K:\n    def __init__(self):\n        self.tag = 1\n\n"
                 "    def g(self, %s):\n        _COUNT[0] += 1\n        return %s\n\ng = K().g\n" % (sig, ret))
     elif kind == "lambda":
@@ -178,8 +195,11 @@ def main():
                 ver = sc["versions"][str(k)]
                 src = source_for(sc, k)
                 path = os.path.join(moddir, ver["path"])
-                with open(path, "w") as fh:
-                    fh.write(src)
+                if ver.get("kind") == "sourceless":
+                    path = "<string>"          # exec'd text: inspect.getsource fails, get_func_code falls back
+                else:
+                    with open(path, "w") as fh:
+                        fh.write(src)
                 modname = "__main__" if ver.get("kind") == "main" else "verifmod"
 
                 def load(name, fname):
@@ -203,7 +223,7 @@ def main():
                     plains[k] = functools.partial(ns2["g"], *fpos, **fkw)
                 else:
                     ns = load(modname, path)
-                    ns2 = load("verifplain", path + ".plain")
+                    ns2 = load("verifplain", path if path == "<string>" else path + ".plain")
                     objs[k] = ns["g"]
                     plains[k] = ns2["g"]
                 counts[k] = ns["_COUNT"]
@@ -229,7 +249,7 @@ def main():
                         raise _RawForm()
                     keep = {n: v for n, v in ba.arguments.items()
                             if {"va": "*", "vk": "**"}.get(
-                                {p[0]: p[1] for p in sc["params"]}[n], n) not in sc["ignore"]}
+                                {p[0]: p[1] for p in vparams(sc, k)}[n], n) not in sc["ignore"]}
                     res["bind_r"] = canon(keep)
                     res["expect"] = canon(plains[k](*pos, **kw))
                 except _RawForm:
